@@ -16,7 +16,7 @@ func init() {
 			"D2 size limit — every dispatch is reachable only when the limit is off or the size obtained from the lazy Stat of the current path (following symlinks, via fileSize(wc.fileAPI)) was compared with '> limit' and passed; the memoised size only ever carries a value that passed; " +
 			"D3 cancellation — ctx.Err()!=nil is tested before any per-file work in the callback and before each plugin call inside the loops of standalone.Run and detector.Run, and its true edge returns ctx.Err(); " +
 			"D4 image byte limit — bytes written for a layer file come from io.LimitReader(_, MaxFileBytes), a node is returned only when copied < MaxFileBytes (>=, so 'at the limit' is rejected), the limit error makes the caller skip the entry; unpack skips entries with Size > max before reading. " +
-			"Added in round 2: D1 additionally: the visit counter is written only by its increment (never reset per scan root). NOT decided: counts over concrete trees, behaviour at a cancellation inside the k-th extraction (schedules).",
+			"Added in round 2: D1 additionally: the visit counter is written only by its increment (never reset per scan root). Added in round 8: D7 the walker hands every callback/recursion error up (shared with C01/C08/C09), so limit and cancellation errors are reported on every kind of file system. NOT decided: counts over concrete trees, behaviour at a cancellation inside the k-th extraction (schedules).",
 		Run: runC10,
 		Controls: []Mutant{
 			{Name: "inode-geq", File: "extractor/filesystem/filesystem.go", Old: "wc.maxInodes > 0 && wc.inodesVisited > wc.maxInodes", New: "wc.maxInodes > 0 && wc.inodesVisited >= wc.maxInodes", Rule: "D1-inodes", Site: "comparison"},
@@ -49,6 +49,10 @@ func runC10(p *Prog, r *Report) {
 	// every file (shared with C01 D1-fileapi)
 	checkFileAPI(p, r, e, "D2-size")
 	c10Cancel(p, r, e)
+	// "limit exceeded" and "cancelled" are errors the callback returns: they are reported only if the
+	// walker hands every callback/recursion error up, on every kind of file system (shared with C01)
+	r.Rule("D7-walk", "the walker returns what the callback and the recursion returned (shared with C01/C08/C09)")
+	c01Walker(p, r, e)
 	c10Image(p, r)
 	r.Rule("D5-config-plumbing", "every extraction the scanner configures runs under the scan's own limits")
 	configPlumbing(p, r, "D5-config-plumbing")
